@@ -170,12 +170,13 @@ func sameCompiled(a, b *twig.CompiledTemplate) string {
 	return ""
 }
 
-func (propC16) Run(scI interface{}) *Outcome {
+func (propC16) Run(scI interface{}) (o *Outcome) {
 	sc := scI.(*c16Sc)
-	o := &Outcome{Probes: map[string]int64{}}
+	o = &Outcome{Probes: map[string]int64{}}
 	start := sc.ClockStart * 1e9
-	w := simrt.Begin(simrt.Config{Seed: sc.WorldSeed, PoolPolicy: sc.Pool, PoolDropPct: sc.Drop, MapOrder: simrt.OrderSorted, ClockStart: start, ClockStep: sc.ClockStep})
+	w := simrt.Begin(simrt.Config{PreemptDen: 4, Seed: sc.WorldSeed, PoolPolicy: sc.Pool, PoolDropPct: sc.Drop, MapOrder: simrt.OrderSorted, ClockStart: start, ClockStep: sc.ClockStep})
 	defer simrt.End()
+	defer underScheduler(w, o)()
 	w.UseSimFS()
 	twig.SetDebugWriter(io.Discard)
 	saved := twig.VerifSwapGlobals(nil)
